@@ -130,7 +130,7 @@ def isunit(q, tol=100):
 
     :seealso: unit
     """
-    return base.isunitvec(q, tol=tol)
+    return base.isunitvec(base.getvector(q, 4), tol=tol)
 
 
 def isequal(q1, q2, tol=100, unitq=False):
